@@ -465,6 +465,11 @@ def xml_reformat(data, ops, rng, flavour):
 # =============================================================================================================
 
 UFO_ONLY_KEYS = ("public.skipExportGlyphs",)   # read from the designspace lib only (ufo2fontir source.rs:351)
+# lib keys fontc reads from a UFO (Routes.tla LibKeyDef); public.glyphOrder alone does not make a lib "non-trivial"
+ROUTE_LIB_KEYS = ("public.openTypeMeta", "public.postscriptNames", "public.openTypeCategories",
+                  "public.skipExportGlyphs", "com.github.googlei18n.ufo2ft.filters",
+                  "com.github.googlei18n.ufo2ft.useProductionNames", "com.github.googlei18n.ufo2ft.colorPalettes",
+                  "com.github.googlei18n.ufo2ft.colorLayers", "com.github.fonttools.varLib.featureVarsFeatureTag")
 FORMAT_OPS = ("indent", "flow", "keyorder", "quote", "num", "eol")
 BUNDLED = ("WghtVar", "WghtVar_Anchors", "WghtVar_Avar", "WghtVar_Instances", "WghtVar_OS2", "infinity")
 
@@ -512,7 +517,7 @@ def ufo_design(did, path, mini=None):
     if os.path.isfile(fea):
         incs = fea_includes(open(fea, encoding="utf-8", errors="replace").read())
     return dict(id=did, kind="ufo", src=path, name=os.path.basename(path)[:-len(".ufo")], cls="uk" if only else "u",
-                includes=incs, ufo_only=only, mini=mini)
+                includes=incs, ufo_only=only, mini=mini, lib_keys=sorted(k for k in ROUTE_LIB_KEYS if k in lib))
 
 
 CLASS_REC = {
@@ -721,6 +726,38 @@ def mini_designs(ctx):
     mf["glyph_order"] = ["c", "a", "b"]
     mf["masters"][0]["info"] = {"openTypeNameVersion": "Version 1.000", "italicAngle": -10}
     out.append(("psnames", mf, {}))
+
+    for tag, with_skip in (("alllib", True), ("meta", False)):
+        mf = base(("a", "b", "c", "acutecomb", "d"))
+        mf["glyphs"][0]["layers"]["Regular"]["anchors"] = [{"name": "top", "x": 250, "y": 700}]
+        mf["glyphs"][2]["layers"]["Regular"] = {"width": 520, "components": [{"base": "b", "xform": [1, 0, 0, 1, 30, 0]}]}
+        mf["glyphs"][3]["unicodes"] = [0x301]
+        mf["glyphs"][3]["layers"]["Regular"] = {"width": 0, "contours": [minifont.square(-60, 720, 60, 800)],
+                                                 "anchors": [{"name": "_top", "x": 0, "y": 700}]}
+        mf["glyphs"][4]["layers"]["Regular"] = {"width": 530, "components": [{"base": "c", "xform": [1, 0, 0, 1, 0, 20]}]}
+        mf["glyph_order"] = ["d", "a", "acutecomb", "b", "c"]
+        mf["postscript_names"] = {"d": "dee", "acutecomb": "uni0301"}
+        mf["categories"] = {"acutecomb": "mark", "a": "base"}
+        if with_skip:
+            mf["skip_export"] = ["b"]
+        mf["lib"] = {
+            "public.openTypeMeta": {"dlng": ["en-Latn", "nl-Latn"], "slng": ["Latn"]},
+            "com.github.googlei18n.ufo2ft.filters": [{"name": "flattenComponents", "pre": True},
+                                                     {"name": "propagateAnchors", "pre": True}],
+        }
+        mf["masters"][0]["info"] = {
+            "openTypeGaspRangeRecords": [{"rangeMaxPPEM": 8, "rangeGaspBehavior": [1, 3]},
+                                         {"rangeMaxPPEM": 65535, "rangeGaspBehavior": [0, 1, 2, 3]}],
+            "openTypeOS2WeightClass": 600, "openTypeOS2WidthClass": 4, "openTypeOS2VendorID": "VRIF",
+            "openTypeOS2TypoAscender": 810, "openTypeOS2TypoDescender": -190, "openTypeOS2TypoLineGap": 33,
+            "openTypeOS2WinAscent": 900, "openTypeOS2WinDescent": 250, "openTypeOS2Selection": [7],
+            "openTypeOS2Panose": [2, 11, 5, 2, 4, 5, 4, 2, 2, 4], "openTypeOS2Type": [3],
+            "openTypeOS2UnicodeRanges": [0, 1], "openTypeOS2CodePageRanges": [0],
+            "openTypeOS2SubscriptXSize": 610, "openTypeOS2StrikeoutSize": 44,
+            "openTypeHheaAscender": 820, "openTypeHheaDescender": -180, "openTypeHheaLineGap": 12,
+            "openTypeNameDesigner": "verif", "postscriptUnderlinePosition": -80,
+        }
+        out.append((tag, mf, {}))
 
     designs = []
     for tag, mf, extra in out:
@@ -939,6 +976,12 @@ def route_goals(cls):
     return fixed, goals
 
 
+# ufo vs one-source designspace with the reference option set: (goals tried first, seeded rest)
+LIB_ROUTE_GOALS = ([lambda o, g: o == "default" and _spans(lambda r: r[0] == "ds", lambda r: r[0] == "ufo" and not r[1])(o, g),
+                    lambda o, g: o == "default" and _spans(lambda r: r[0] == "dslib", lambda r: r[0] == "ufo" and not r[1])(o, g)],
+                   [])
+
+
 def pick_walks(rng, pool, k, goals=()):
     """Seeded stratified sample. First the route goals of the class (in seeded order; one walk per goal not yet
     met), then each pick is drawn uniformly from the candidates (200 random ones) that add the most not-yet-covered
@@ -1020,12 +1063,17 @@ def select_designs(ctx, glyphs, ufos, minis):
     by = {}
     for d in glyphs:
         by.setdefault(d["cls"], []).append(d)
-    chosen = rng.sample(by.get("g", []), min(10, len(by.get("g", []))))
-    chosen += rng.sample(by.get("gb", []), min(4, len(by.get("gb", []))))
+    chosen = rng.sample(by.get("g", []), min(7, len(by.get("g", []))))
+    chosen += rng.sample(by.get("gb", []), min(3, len(by.get("gb", []))))
     chosen += by.get("gi", [])
-    uk = [d for d in ufos if d["cls"] == "uk"]
-    u = [d for d in ufos if d["cls"] == "u"]
-    chosen += rng.sample(uk, min(2, len(uk))) + rng.sample(u, min(4, len(u)))
+    # UFOs whose lib carries keys fontc reads (anything beyond public.glyphOrder: openTypeMeta, postscriptNames,
+    # openTypeCategories, skipExportGlyphs, ufo2ft filters / colour / production-name switches) are ALWAYS part of
+    # the quick tier, with the lean "lib route" plan (ufo vs ds vs dslib, default options); see main
+    always = [d for d in ufos if d["lib_keys"]]
+    for d in always:
+        d["lean"] = True
+    rest = [d for d in ufos if not d["lib_keys"]]
+    chosen += always + rng.sample(rest, min(2, len(rest)))
     chosen += minis
     return chosen
 
@@ -1091,10 +1139,21 @@ def main(ctx):
             if not ws or not ws["bfs"]:
                 raise common.ToolError("no walks for class %s" % d["cls"])
             # classes with very few designs (include-using Glyphs source, UFOs with UFO-only lib keys) get more walks
-            rare = n_in_class[d["cls"]] <= 3
-            kb = k_bfs * 3 if rare else k_bfs
+            # the include-using Glyphs source and the MiniFonts with UFO-only lib keys are the only designs of their
+            # kind in the quick tier: more walks for them
+            rare = ctx.quick and (d["cls"] == "gi" or (d.get("mini") and d["cls"] == "uk"))
+            kb = k_bfs * (3 if d["cls"] == "gi" else 2) if rare else k_bfs
             ks = k_sim if (rare or not ctx.quick or dn % 3 == 0) else 0
-            pick = pick_walks(rng, ws["bfs"], kb, route_goals(d["cls"])) + pick_walks(rng, ws["sim"], ks)
+            if ctx.quick and d.get("lean"):
+                # lib-carrying fixture UFO in the quick tier: exactly the comparisons that can tell the routes apart -
+                # ds vs ufo and dslib vs ufo with the default options (the reference compile is ufo / lib / default)
+                pick = pick_walks(rng, ws["bfs"], 2, LIB_ROUTE_GOALS)
+            else:
+                goals = route_goals(d["cls"])
+                if d["kind"] == "ufo":
+                    goals = (LIB_ROUTE_GOALS[0] + goals[0], goals[1])
+                pick = pick_walks(rng, ws["bfs"], max(kb, 3 if d["kind"] == "ufo" else 0), goals) + \
+                    pick_walks(rng, ws["sim"], ks)
             jobs += [(d, w) for w in pick]
         ev.extra["walks_generated"] = {"exhaustive": len(bfs), "random": len(sim),
                                        "nontrivial_by_class": {c: len(v["bfs"]) + len(v["sim"]) for c, v in walks.items()}}
